@@ -352,17 +352,25 @@ def ob_save(fmt, blanks, variant, timeout):
 SAVE_VARIANTS = ("plain", "override", "invalid-tg-error", "bad-format", "bad-reporting")
 
 
+def _ops(d):
+    """operations of C05 that are in C13's scope.  insertEntry(collisionReportingMode='error') is
+    not: the parameter is documented as Literal['silence', 'warning'] - with 'error' the tier is
+    edited and the report then raised, which C05 still requires to leave a well-formed tier but
+    which is not one of the failing argument classes of this property"""
+    return sorted(op for op in d if "reporting-error" not in op)
+
+
 def obligations(tier):
     obs = []
     if tier == "quick":
         K, T = 1, 240
-        for op in sorted(C05._iops()):
+        for op in _ops(C05._iops()):
             obs.append(ob_i_nomut(op, K, T))
         for op in sorted(C05._ibinops()):
             obs.append(ob_i_bin_nomut(op, 1, 1, T))
         obs.append(ob_i_queries(2, 60))
         obs.append(ob_p_queries(200))
-        for op in sorted(C05._pops()):
+        for op in _ops(C05._pops()):
             obs.append(ob_p_nomut(op, 2, 120))
         for op in sorted(TG_OPS):
             obs.append(ob_tg_nomut(op, T))
@@ -372,7 +380,7 @@ def obligations(tier):
         obs.append(ob_save("json", False, "override", T))
         obs.append(ob_save("long_textgrid", True, "plain", T))
     else:
-        for op in sorted(C05._iops()):
+        for op in _ops(C05._iops()):
             for k in (0, 1, 2):
                 obs.append(ob_i_nomut(op, k, 1200))
         for op in sorted(C05._ibinops()):
@@ -380,7 +388,7 @@ def obligations(tier):
                 obs.append(ob_i_bin_nomut(op, k, k2, 1200))
         obs.append(ob_i_queries(3, 300))
         obs.append(ob_p_queries(900))
-        for op in sorted(C05._pops()):
+        for op in _ops(C05._pops()):
             for k in (0, 1, 2, 3):
                 obs.append(ob_p_nomut(op, k, 600))
         for op in sorted(TG_OPS):
